@@ -1,3 +1,4 @@
 pub mod hist_props;
 pub mod c13;
 pub mod c12;
+pub mod c10;
